@@ -134,6 +134,82 @@ theorem parseFrame_no_crash (pt : Bytes) : parseFrame pt ≠ .error .crash := by
       rw [u2]
       simp
 
+/-! ### identities: the AAD layout is injective -/
+
+theorem split_at_nul (d₁ d₂ p₁ p₂ : Bytes) (h₁ : (0 : UInt8) ∉ d₁) (h₂ : (0 : UInt8) ∉ d₂)
+    (h : d₁ ++ 0 :: p₁ = d₂ ++ 0 :: p₂) : d₁ = d₂ ∧ p₁ = p₂ := by
+  induction d₁ generalizing d₂ with
+  | nil =>
+    cases d₂ with
+    | nil => simpa using h
+    | cons b t =>
+      simp only [List.nil_append, List.cons_append, List.cons.injEq] at h
+      exact absurd (by rw [← h.1]; simp) h₂
+  | cons a t ih =>
+    cases d₂ with
+    | nil =>
+      simp only [List.nil_append, List.cons_append, List.cons.injEq] at h
+      exact absurd (by rw [h.1]; simp) h₁
+    | cons b t' =>
+      simp only [List.cons_append, List.cons.injEq] at h
+      have := ih t' (fun hm => h₁ (by simp [hm])) (fun hm => h₂ (by simp [hm])) h.2
+      exact ⟨by rw [h.1, this.1], this.2⟩
+
+/-- the extracted AAD layout (`prefix + b"\x01" + domain + b"\x00" + principal`, anonymous tail starting with a NUL) -/
+theorem gen_aad : Sticky.aadUserTag = [1] ∧ Sticky.aadSep = [0] ∧ Sticky.aadAnonTail.head? = some 0 ∧ Sticky.aadLayoutOk = true ∧
+    Sticky.pkeyLayoutOk = true := by decide
+
+theorem aad_inj (i j : Identity)
+    (hi : match i with | .anon => True | .user d _ => (0 : UInt8) ∉ d)
+    (hj : match j with | .anon => True | .user d _ => (0 : UInt8) ∉ d) (h : aad i = aad j) : i = j := by
+  cases i with
+  | anon =>
+    cases j with
+    | anon => rfl
+    | user d p =>
+      simp only [aad, List.append_assoc] at h
+      have := List.append_cancel_left h
+      simp [Sticky.aadAnonTail, Sticky.aadUserTag] at this
+  | user d p =>
+    cases j with
+    | anon =>
+      simp only [aad, List.append_assoc] at h
+      have := List.append_cancel_left h
+      simp [Sticky.aadAnonTail, Sticky.aadUserTag] at this
+    | user d' p' =>
+      simp only [aad, List.append_assoc] at h
+      have h1 := List.append_cancel_left h
+      simp only [Sticky.aadUserTag, Sticky.aadSep, List.cons_append, List.nil_append, List.cons.injEq, true_and] at h1
+      obtain ⟨hd, hp⟩ := split_at_nul d d' p p' hi hj h1
+      rw [hd, hp]
+
+/-! ### server ids: `decode("ascii", errors="replace")` -/
+
+theorem asciiReplace_ascii (b : Bytes) (h : ∀ x ∈ b, x.toNat < 128) : asciiReplaceUtf8 b = b := by
+  induction b with
+  | nil => rfl
+  | cons x t ih =>
+    have hx : x.toNat < 128 := h x (by simp)
+    simp only [asciiReplaceUtf8, List.flatMap_cons, hx, if_true, List.singleton_append, List.cons.injEq, true_and]
+    exact ih (fun y hy => h y (by simp [hy]))
+
+theorem asciiReplace_eq_ascii (b t : Bytes) (ht : ∀ x ∈ t, x.toNat < 128) (h : asciiReplaceUtf8 b = t) : b = t := by
+  induction b generalizing t with
+  | nil => simpa [asciiReplaceUtf8] using h
+  | cons x r ih =>
+    simp only [asciiReplaceUtf8, List.flatMap_cons] at h
+    by_cases hx : x.toNat < 128
+    · simp only [hx, if_true, List.singleton_append] at h
+      cases t with
+      | nil => cases h
+      | cons y t' =>
+        simp only [List.cons.injEq] at h
+        rw [h.1, ih t' (fun z hz => ht z (by simp [hz])) h.2]
+    · simp only [hx, if_false] at h
+      have : (0xEF : UInt8) ∈ t := by rw [← h]; simp
+      have := ht _ this
+      simp at this
+
 /-! ### registry -/
 
 theorem Reg.find_some {r : Reg} {sid : Bytes} {e : Entry} (h : r.find sid = some e) : e ∈ r.entries ∧ e.sid = sid := by
@@ -184,5 +260,118 @@ theorem Reg.get_spec (r : Reg) (sid pk : Bytes) (now : Nat) :
 
 theorem world_eta (W : World) : ({ W with reg := W.reg, closedLog := W.closedLog ++ [] } : World) = W := by
   cases W; simp
+
+theorem Reg.get_world (r : Reg) (sid pk : Bytes) (now : Nat) :
+    (r.get sid pk now).1.draining = r.draining ∧ ∀ x ∈ (r.get sid pk now).1.entries, x ∈ r.entries := by
+  rcases Reg.get_spec r sid pk now with ⟨_, hg⟩ | ⟨e, _, _, hg⟩ | ⟨e, _, _, _, hg⟩ | ⟨e, _, _, _, hg⟩ <;> rw [hg]
+  · exact ⟨rfl, fun _ h => h⟩
+  · exact ⟨rfl, fun _ h => (Reg.mem_remove.mp h).1⟩
+  · exact ⟨rfl, fun _ h => h⟩
+  · exact ⟨rfl, fun _ h => h⟩
+
+/-- `resolve` leaves clock, counters and mints alone and only ever removes registry entries -/
+theorem resolve_world {Wire : Type} [DecidableEq Wire] (C : Codec Wire) (cfg : Cfg) (W : World) (rq : Req Wire) :
+    ∃ r' cl, (resolve C cfg W rq).1 = { W with reg := r', closedLog := cl } ∧ r'.draining = W.reg.draining ∧
+      ∀ x ∈ r'.entries, x ∈ W.reg.entries := by
+  have triv : ∃ r' cl, W = { W with reg := r', closedLog := cl } ∧ r'.draining = W.reg.draining ∧ ∀ x ∈ r'.entries, x ∈ W.reg.entries :=
+    ⟨W.reg, W.closedLog, rfl, rfl, fun _ h => h⟩
+  unfold resolve
+  cases rq.session with
+  | none => exact triv
+  | some w =>
+    simp only
+    cases openSessionToken C w cfg.key (aad rq.ident) with
+    | error e => exact triv
+    | ok res =>
+      obtain ⟨sidB, sid, ex⟩ := res
+      simp only
+      split
+      · exact triv
+      · have hg := Reg.get_world W.reg sid (pkey rq.ident) W.env.now
+        generalize W.reg.get sid (pkey rq.ident) W.env.now = g at hg
+        obtain ⟨r', eo, cl⟩ := g
+        cases eo with
+        | none => exact ⟨r', _, rfl, hg.1, hg.2⟩
+        | some e => exact ⟨r', _, rfl, hg.1, hg.2⟩
+
+theorem Reg.find_of_mem {r : Reg} (hnd : ∀ x ∈ r.entries, ∀ y ∈ r.entries, x.sid = y.sid → x = y) {e : Entry} (he : e ∈ r.entries) :
+    r.find e.sid = some e := by
+  cases hf : r.find e.sid with
+  | none => exact absurd rfl (Reg.find_none hf e he)
+  | some e' =>
+    have := Reg.find_some hf
+    rw [hnd e' this.1 e he this.2]
+
+/-- a request that carries a session header is never treated as fresh -/
+theorem resolve_fresh {Wire : Type} [DecidableEq Wire] (C : Codec Wire) (cfg : Cfg) (W : World) (rq : Req Wire)
+    (h : (resolve C cfg W rq).2 = .fresh) : rq.session = none := by
+  unfold resolve at h
+  cases hs : rq.session with
+  | none => rfl
+  | some w =>
+    rw [hs] at h
+    simp only at h
+    cases ho : openSessionToken C w cfg.key (aad rq.ident) with
+    | error err => rw [ho] at h; cases h
+    | ok res =>
+      obtain ⟨sidB, sid, ex⟩ := res
+      rw [ho] at h
+      simp only at h
+      by_cases hsid : checkServerId = true ∧ asciiReplaceUtf8 sidB ≠ cfg.serverId
+      · rw [if_pos hsid] at h; cases h
+      · rw [if_neg hsid] at h
+        rcases Reg.get_spec W.reg sid (pkey rq.ident) W.env.now with ⟨_, hg⟩ | ⟨e', _, _, hg⟩ | ⟨e', _, _, _, hg⟩ | ⟨e', _, _, _, hg⟩ <;>
+          (rw [hg] at h; cases h)
+
+/-- the successful path of `resolve`, computed forwards -/
+theorem resolve_resumed_of {Wire : Type} [DecidableEq Wire] (C : Codec Wire) (cfg : Cfg) (W : World) (rq : Req Wire)
+    (w : Wire) (sidB sid : Bytes) (ex : Nat) (e : Entry) (hs : rq.session = some w)
+    (ho : openSessionToken C w cfg.key (aad rq.ident) = .ok (sidB, sid, ex)) (hsrv : asciiReplaceUtf8 sidB = cfg.serverId)
+    (hf : W.reg.find sid = some e) (hx : expired e W.env.now = false) (hp : e.pkey = pkey rq.ident) :
+    resolve C cfg W rq = (W, .resumed e) := by
+  unfold resolve
+  rw [hs]
+  simp only [ho]
+  rw [if_neg (fun h => h.2 hsrv)]
+  have hg : W.reg.get sid (pkey rq.ident) W.env.now = (W.reg, some e, []) := by
+    unfold Reg.get
+    rw [hf]
+    simp only [hx, Bool.false_eq_true, if_false]
+    rw [if_neg (fun h => h.2 hp)]
+  rw [hg]
+  simp only
+  rw [world_eta]
+
+/-- the unsuccessful / successful paths of `resolve`, analysed backwards -/
+theorem resolve_resumed_inv {Wire : Type} [DecidableEq Wire] (C : Codec Wire) (cfg : Cfg) (W : World) (rq : Req Wire) (e : Entry)
+    (h : (resolve C cfg W rq).2 = .resumed e) :
+    ∃ w sidB sid ex, rq.session = some w ∧ openSessionToken C w cfg.key (aad rq.ident) = .ok (sidB, sid, ex) ∧
+      (checkServerId = true → asciiReplaceUtf8 sidB = cfg.serverId) ∧ W.reg.find sid = some e ∧ expired e W.env.now = false ∧
+      (checkPrincipal = true → e.pkey = pkey rq.ident) ∧ resolve C cfg W rq = (W, .resumed e) := by
+  unfold resolve at h ⊢
+  cases hs : rq.session with
+  | none => rw [hs] at h; cases h
+  | some w =>
+    rw [hs] at h
+    simp only at h ⊢
+    cases ho : openSessionToken C w cfg.key (aad rq.ident) with
+    | error err => rw [ho] at h; cases h
+    | ok res =>
+      obtain ⟨sidB, sid, ex⟩ := res
+      rw [ho] at h
+      simp only at h ⊢
+      by_cases hsid : checkServerId = true ∧ asciiReplaceUtf8 sidB ≠ cfg.serverId
+      · rw [if_pos hsid] at h; cases h
+      · rw [if_neg hsid] at h ⊢
+        rcases Reg.get_spec W.reg sid (pkey rq.ident) W.env.now with ⟨_, hg⟩ | ⟨e', _, _, hg⟩ | ⟨e', _, _, _, hg⟩ | ⟨e', hf, hx, hp, hg⟩
+        · rw [hg] at h; cases h
+        · rw [hg] at h; cases h
+        · rw [hg] at h; cases h
+        · rw [hg] at h ⊢
+          simp only at h ⊢
+          cases h
+          rw [world_eta]
+          exact ⟨w, sidB, sid, ex, rfl, ho, fun hc => Classical.byContradiction fun hne => hsid ⟨hc, hne⟩, hf, hx,
+            fun hc => Classical.byContradiction fun hne => hp ⟨hc, hne⟩, rfl⟩
 
 end VgiVerif.Sticky
